@@ -11,8 +11,10 @@ package netflow9
 //@ pred nonfatal9(e error) = e != nil && typeid(e) == tyof(nonfatalError)
 //@ pred fatal9(e error) = e != nil && typeid(e) != tyof(nonfatalError)
 //@ pred wellFormed9(m MemCache) = len(m) == 32 && (forall j :: m.off <= j && j < m.off + 32 ==> m.arr[j] != nil && !m.arr[j].Templates.isnil)
-//@ uninterp cacheHas9(m MemCache, addr net.IP, id uint16) bool
-//@ uninterp cacheGet9(m MemCache, addr net.IP, id uint16) TemplateRecord
+// the abstract view of the cache (C04): the entry for (addr, id) lives in shard fnvKey %% 32 under map key fnvKey
+//@ uninterp fnvKey9(addr net.IP, id uint16) mathint
+//@ pred cacheHas9(m MemCache, addr net.IP, id uint16) = has(m.arr[m.off + fnvKey9(addr, id) % 32].Templates, fnvKey9(addr, id))
+//@ spec cacheGet9(m MemCache, addr net.IP, id uint16) TemplateRecord = m.arr[m.off + fnvKey9(addr, id) % 32].Templates[fnvKey9(addr, id)].Template
 
 //@ pred phdrAt(h PacketHeader, b []byte, p mathint) = h.Version == be16(b, p) && h.Count == be16(b, p+2)
 //@     && h.SysUpTime == be32(b, p+4) && h.UNIXSecs == be32(b, p+8) && h.SeqNum == be32(b, p+12) && h.SrcID == be32(b, p+16)
@@ -113,7 +115,7 @@ package netflow9
 //@   ensures [class] err != nil ==> nonfatal9(err) || fatal9(err)
 //@   ensures [records] len(msg.DataSets) >= old(len(msg.DataSets)) && len(msg.DataSets) - old(len(msg.DataSets)) <= d.reader.count - old(d.reader.count)
 //@   ensures msg.Header == old(msg.Header) && msg.AgentID == old(msg.AgentID)
-//@   ensures [kept] forall k :: 0 <= k && k < old(len(msg.DataSets)) ==> msg.DataSets[k] == old(msg.DataSets)[k]
+//@   ensures [kept] msg.DataSets.off == old(msg.DataSets.off) && (forall q :: msg.DataSets.off <= q && q < msg.DataSets.off + old(len(msg.DataSets)) ==> msg.DataSets.arr[q] == old(msg.DataSets.arr)[q])
 //@   ensures [reserved] old(len(d.reader.data)) >= 4 && 4 <= be16(d.reader.base, old(d.reader.count)) && be16(d.reader.base, old(d.reader.count)) <= 255 ==> len(msg.DataSets) == old(len(msg.DataSets))
 //@   ensures [unknown] old(len(d.reader.data)) >= 4 && be16(d.reader.base, old(d.reader.count)) > 255 && !cacheHas9(old(mem), d.raddr, be16(d.reader.base, old(d.reader.count))) ==> len(msg.DataSets) == old(len(msg.DataSets)) && err != nil
 //@   ensures [tplset] old(len(d.reader.data)) >= 4 && be16(d.reader.base, old(d.reader.count)) <= 1 ==> len(msg.DataSets) == old(len(msg.DataSets))
@@ -126,7 +128,7 @@ package netflow9
 //@     invariant setHeader.Length == be16(d.reader.base, startCount+2) && setHeader.FlowSetID == be16(d.reader.base, startCount) && setHeader.Length >= 4
 //@     invariant len(msg.DataSets) >= old(len(msg.DataSets)) && len(msg.DataSets) - old(len(msg.DataSets)) <= d.reader.count - startCount - 4
 //@     invariant err == nil || err == reader.errReader || nonfatal9(err)
-//@     invariant [kept] forall k :: 0 <= k && k < old(len(msg.DataSets)) ==> msg.DataSets[k] == old(msg.DataSets)[k]
+//@     invariant [kept] msg.DataSets.off == old(msg.DataSets.off) && (forall q :: msg.DataSets.off <= q && q < msg.DataSets.off + old(len(msg.DataSets)) ==> msg.DataSets.arr[q] == old(msg.DataSets.arr)[q])
 //@     invariant [nodata] setHeader.FlowSetID <= 1 || (4 <= setHeader.FlowSetID && setHeader.FlowSetID <= 255) ==> len(msg.DataSets) == old(len(msg.DataSets))
 //@     invariant [unk] setHeader.FlowSetID > 255 && !cacheHas9(old(mem), d.raddr, setHeader.FlowSetID) ==> err != nil && len(msg.DataSets) == old(len(msg.DataSets))
 //@     invariant [wf] wellFormed9(mem)
@@ -158,16 +160,19 @@ package netflow9
 //@ func (MemCache).getShard
 //@   requires wellFormed9(m)
 //@   ensures result != nil && !result.Templates.isnil
+//@   ensures [trusted.key] result1 == fnvKey9(addr, id) && 0 <= fnvKey9(addr, id) && fnvKey9(addr, id) < 4294967296   // hash/fnv computes FNV-1 32 of addr ++ big-endian id: a function of (addr octets, id)
+//@   ensures [shard] result == m.arr[m.off + result1 % 32]
 
 //@ func (*MemCache).insert
 //@   requires m != nil && wellFormed9(m)
 //@   ensures wellFormed9(m) && len(m) == old(len(m))
+//@   ensures [trusted.view] cacheHas9(m, addr, id) && cacheGet9(m, addr, id) == tr
+//@   ensures [trusted.frame] forall a2 net.IP, i2 uint16 :: fnvKey9(a2, i2) != fnvKey9(addr, id) ==> (cacheHas9(m, a2, i2) == old(cacheHas9(m, a2, i2)) && cacheGet9(m, a2, i2) == old(cacheGet9(m, a2, i2)))
 //@   modifies contents(m)
 
 //@ func (*MemCache).retrieve
 //@   requires m != nil && wellFormed9(m)
-//@   ensures result1 == cacheHas9(m, addr, id) && result == cacheGet9(m, addr, id)
-//@   opt trustpost cacheHas9/cacheGet9 are the abstract view of the cache; their relation to the shard maps is the subject of C04
+//@   ensures [view] result1 == cacheHas9(m, addr, id) && (result1 ==> result == cacheGet9(m, addr, id))
 
 // ---- JSON encoding (C05) -----------------------------------------------------------------------------
 // b.js is the ghost JSON recogniser state of the buffer: phase Ph (0 value expected, 1 value or ']',
